@@ -2,7 +2,7 @@
 From Coq Require Import List Arith Bool Lia Ring Field.
 From VBase Require Import FieldOps.
 From VModel Require Import Polynom.
-From VProofs Require Import PolyBase PolyArith.
+From VProofs Require Import PolyBase PolyArith PolyCoeff.
 Import ListNotations.
 
 Section Div.
@@ -14,6 +14,8 @@ Local Notation "a -f b" := (fsub O a b) (at level 50, left associativity).
 Local Notation "a *f b" := (fmul O a b) (at level 40, left associativity).
 Local Notation peval := (peval O).
 Local Notation fpow := (fpow O).
+Local Notation coeff := (coeff O).
+Local Notation conv := (conv O).
 
 Add Ring Fring : (FLaws_ring_theory O L).
 Add Field Ffield : (FLaws_field_theory O L).
@@ -258,38 +260,53 @@ Proof. reflexivity. Qed.
 
 Lemma div_inner x b i quot : forall m aw, m <= length b -> i + m <= length aw ->
   exists aw', for_down m (div_inner_body b i quot) aw = Ok aw' /\ length aw' = length aw /\
-    forall Lg, i + m <= Lg ->
-      peval (firstn Lg aw') x = peval (firstn Lg aw) x -f quot *f fpow x i *f peval (firstn m b) x.
+    (forall Lg, i + m <= Lg ->
+      peval (firstn Lg aw') x = peval (firstn Lg aw) x -f quot *f fpow x i *f peval (firstn m b) x) /\
+    (forall k, coeff aw' k = if (i <=? k) && (k <? i + m) then coeff aw k -f coeff b (k - i) *f quot else coeff aw k).
 Proof.
   induction m as [|m IH]; intros aw Hb Hl.
-  - exists aw. simpl. repeat split. intros. ring.
+  - exists aw. split; [reflexivity|]. split; [reflexivity|]. split.
+    + intros. simpl. ring.
+    + intros k. destruct (Nat.leb_spec i k), (Nat.ltb_spec k (i + 0)); simpl; try reflexivity; lia.
   - set (v := nth (i + m) aw zero -f nth m b zero *f quot).
     assert (Hstep : div_inner_body b i quot m aw = Ok (upd aw (i + m) v)).
     { unfold div_inner_body. rewrite (get_ok b m zero) by lia. cbn [bind].
       rewrite (get_ok aw (i + m) zero) by lia. cbn [bind]. apply set_ok; lia. }
     cbn [for_down]. rewrite Hstep.
-    destruct (IH (upd aw (i + m) v)) as (aw' & H1 & H2 & H3); [lia | rewrite upd_length; lia |].
+    destruct (IH (upd aw (i + m) v)) as (aw' & H1 & H2 & H3 & H4); [lia | rewrite upd_length; lia |].
     exists aw'. split; [exact H1|]. split. { rewrite H2. apply upd_length. }
-    intros Lg HL. rewrite H3 by lia.
-    rewrite (firstn_upd_lt aw (i + m) Lg v) by lia.
-    rewrite (peval_upd O L) by (rewrite firstn_length; lia).
-    rewrite (nth_firstn_lt aw (i + m) Lg zero) by lia.
-    rewrite (peval_firstn_S O L b m) by lia.
-    unfold v. rewrite (fpow_add O L). ring.
+    split.
+    + intros Lg HL. rewrite H3 by lia.
+      rewrite (firstn_upd_lt aw (i + m) Lg v) by lia.
+      rewrite (peval_upd O L) by (rewrite firstn_length; lia).
+      rewrite (nth_firstn_lt aw (i + m) Lg zero) by lia.
+      rewrite (peval_firstn_S O L b m) by lia.
+      unfold v. rewrite (fpow_add O L). ring.
+    + intros k. rewrite H4. unfold PolyCoeff.coeff.
+      destruct (Nat.eq_dec k (i + m)) as [->|Hk].
+      * rewrite nth_upd_same by lia.
+        destruct (Nat.leb_spec i (i + m)), (Nat.ltb_spec (i + m) (i + m)), (Nat.ltb_spec (i + m) (i + S m));
+          simpl; try lia. unfold v. now replace (i + m - i) with m by lia.
+      * rewrite nth_upd_other by assumption.
+        destruct (Nat.leb_spec i k), (Nat.ltb_spec k (i + m)), (Nat.ltb_spec k (i + S m)); simpl; try lia; reflexivity.
 Qed.
 
 Lemma div_outer x b n lead : nth n b zero = lead -> lead <> zero -> n < length b ->
+  (forall j, n < j -> coeff b j = zero) ->
   forall m aw qs ap, ap = n + m - 1 -> n + m <= length aw ->
   exists aw' q' ap',
     for_down m (div_outer_body b n) (aw, repeat zero m ++ qs, ap) = Ok (aw', q' ++ qs, ap') /\
     length q' = m /\ length aw' = length aw /\
-    peval (firstn (n + m) aw) x = peval q' x *f peval (firstn (S n) b) x +f peval (firstn n aw') x.
+    peval (firstn (n + m) aw) x = peval q' x *f peval (firstn (S n) b) x +f peval (firstn n aw') x /\
+    (forall k, k < n + m -> coeff aw k = conv q' b k +f (if k <? n then coeff aw' k else zero)).
 Proof.
-  intros Hlead Hnz Hn. induction m as [|i IH]; intros aw qs ap Hap Hl.
-  - exists aw, [], ap. simpl. repeat split. rewrite Nat.add_0_r. ring.
+  intros Hlead Hnz Hn Hhigh. induction m as [|i IH]; intros aw qs ap Hap Hl.
+  - exists aw, [], ap. split; [reflexivity|]. split; [reflexivity|]. split; [reflexivity|]. split.
+    + simpl. rewrite Nat.add_0_r. ring.
+    + intros k Hk. rewrite (conv_nil_l O L). destruct (Nat.ltb_spec k n); [|lia]. ring.
   - subst ap. replace (n + S i - 1) with (n + i) by lia.
     set (quot := fdiv O (nth (n + i) aw zero) lead).
-    destruct (div_inner x b i quot n aw) as (aw1 & Hi1 & Hi2 & Hi3); [lia|lia|].
+    destruct (div_inner x b i quot n aw) as (aw1 & Hi1 & Hi2 & Hi3 & Hi4); [lia|lia|].
     assert (Hu : upd (repeat zero (S i) ++ qs) i quot = repeat zero i ++ quot :: qs).
     { rewrite repeat_snoc, <- app_assoc. simpl.
       pose proof (upd_app_mid (repeat zero i) qs zero quot) as Hx. rewrite repeat_length in Hx. exact Hx. }
@@ -300,21 +317,34 @@ Proof.
       rewrite set_ok by (rewrite app_length, repeat_length; lia). cbn [bind].
       rewrite Hi1. cbn [bind]. rewrite Hu. reflexivity. }
     cbn [for_down]. rewrite Hstep.
-    destruct (IH aw1 (quot :: qs) (Nat.pred (n + i))) as (aw' & q'' & ap' & H1 & H2 & H3 & H4); [lia|lia|].
+    destruct (IH aw1 (quot :: qs) (Nat.pred (n + i))) as (aw' & q'' & ap' & H1 & H2 & H3 & H4 & H5); [lia|lia|].
+    assert (Hq : quot *f lead = nth (n + i) aw zero) by (unfold quot; field; exact Hnz).
     exists aw', (q'' ++ [quot]), ap'.
     split. { rewrite <- app_assoc. exact H1. }
     split. { rewrite app_length. simpl. lia. }
     split. { lia. }
-    replace (n + S i) with (S (n + i)) by lia. rewrite (peval_firstn_S O L aw (n + i)) by lia.
-    pose proof (Hi3 (n + i) ltac:(lia)) as E. rewrite H4 in E.
-    rewrite (peval_snoc O L). rewrite H2.
-    rewrite (peval_firstn_S O L b n) in * by lia. rewrite Hlead in *.
-    assert (Hq : quot *f lead = nth (n + i) aw zero) by (unfold quot; field; exact Hnz).
-    assert (HA : peval (firstn (n + i) aw) x
-                 = peval q'' x *f (peval (firstn n b) x +f lead *f fpow x n) +f peval (firstn n aw') x
-                   +f quot *f fpow x i *f peval (firstn n b) x).
-    { rewrite E. ring. }
-    rewrite HA, <- Hq, (fpow_add O L). ring.
+    split.
+    + replace (n + S i) with (S (n + i)) by lia. rewrite (peval_firstn_S O L aw (n + i)) by lia.
+      pose proof (Hi3 (n + i) ltac:(lia)) as E. rewrite H4 in E.
+      rewrite (peval_snoc O L). rewrite H2.
+      rewrite (peval_firstn_S O L b n) in * by lia. rewrite Hlead in *.
+      assert (HA : peval (firstn (n + i) aw) x
+                   = peval q'' x *f (peval (firstn n b) x +f lead *f fpow x n) +f peval (firstn n aw') x
+                     +f quot *f fpow x i *f peval (firstn n b) x).
+      { rewrite E. ring. }
+      rewrite HA, <- Hq, (fpow_add O L). ring.
+    + intros k Hk. rewrite (conv_snoc O L). rewrite H2.
+      destruct (Nat.eq_dec k (n + i)) as [->|Hne].
+      * (* the position of the leading term *)
+        rewrite (conv_high O L q'' b n) by (auto; lia).
+        destruct (Nat.leb_spec i (n + i)); [|lia]. destruct (Nat.ltb_spec (n + i) n); [lia|].
+        replace (n + i - i) with n by lia. unfold PolyCoeff.coeff. rewrite Hlead, <- Hq. ring.
+      * pose proof (H5 k ltac:(lia)) as E5. rewrite (Hi4 k) in E5.
+        set (B := if k <? n then coeff aw' k else zero) in *.
+        destruct (Nat.leb_spec i k) as [Hik|Hik]; destruct (Nat.ltb_spec k (i + n)) as [Hkn|Hkn];
+          simpl in E5 |- *; try lia.
+        -- transitivity (conv q'' b k +f B +f quot *f coeff b (k - i)); [rewrite <- E5; ring|ring].
+        -- rewrite E5. ring.
 Qed.
 
 (* the leading coefficient of the divisor under the code's assertions *)
@@ -342,23 +372,55 @@ Proof.
   destruct (Nat.ltb_spec (degree_of O a) (degree_of O b)) as [Hd|Hd]; [discriminate|].
   destruct ((degree_of O b =? 0) && (match b with [] => true | b0 :: _ => feqb O b0 zero end)) eqn:E2; [discriminate|].
   destruct (div_lead b E2) as (Hn & Hnz).
+  assert (Hhigh : forall j, degree_of O b < j -> coeff b j = zero) by (apply (degree_of_spec O L b)).
   destruct a as [|a0 a'].
   - intros H; inversion H; subst q aw. repeat split; auto; try congruence.
     intros x. rewrite firstn_nil. simpl. ring.
   - set (a := a0 :: a') in *. assert (Hane : a <> []) by discriminate.
     pose proof (degree_of_lt O L a Hane) as Hda.
     rewrite repeat_length.
-    destruct (div_outer zero b (degree_of O b) _ eq_refl Hnz Hn (degree_of O a - degree_of O b + 1) a []
+    destruct (div_outer zero b (degree_of O b) _ eq_refl Hnz Hn Hhigh (degree_of O a - degree_of O b + 1) a []
                 (degree_of O a) ltac:(lia) ltac:(lia)) as (aw' & q' & ap' & H1 & H2 & H3 & _).
     rewrite !app_nil_r in H1. rewrite H1. cbn [bind fst snd].
     intros H; inversion H; subst q aw. clear H.
     repeat split; auto; try congruence.
     intros x.
-    destruct (div_outer x b (degree_of O b) _ eq_refl Hnz Hn (degree_of O a - degree_of O b + 1) a []
-                (degree_of O a) ltac:(lia) ltac:(lia)) as (aw2 & q2 & ap2 & G1 & _ & _ & G4).
+    destruct (div_outer x b (degree_of O b) _ eq_refl Hnz Hn Hhigh (degree_of O a - degree_of O b + 1) a []
+                (degree_of O a) ltac:(lia) ltac:(lia)) as (aw2 & q2 & ap2 & G1 & _ & _ & G4 & _).
     rewrite !app_nil_r in G1. rewrite H1 in G1. inversion G1; subst aw2 q2 ap2.
     replace (degree_of O b + (degree_of O a - degree_of O b + 1)) with (S (degree_of O a)) in G4 by lia.
     rewrite !(peval_firstn_degree O L) in G4. exact G4.
+Qed.
+
+(* the same identity on COEFFICIENT LISTS: a_k = sum_{i<=k} q_i b_{k-i} + r_k for every k, r = first deg(b) entries of
+   the working copy (stronger than the identity of polynomial functions when the field is finite) *)
+Lemma div_coeff_spec a b q aw : div_full O a b = Ok (q, aw) ->
+  forall k, coeff a k = conv q b k +f coeff (firstn (degree_of O b) aw) k.
+Proof.
+  rewrite div_full_unfold. cbv zeta.
+  destruct (Nat.ltb_spec (degree_of O a) (degree_of O b)) as [Hd|Hd]; [discriminate|].
+  destruct ((degree_of O b =? 0) && (match b with [] => true | b0 :: _ => feqb O b0 zero end)) eqn:E2; [discriminate|].
+  destruct (div_lead b E2) as (Hn & Hnz).
+  assert (Hhigh : forall j, degree_of O b < j -> coeff b j = zero) by (apply (degree_of_spec O L b)).
+  destruct a as [|a0 a'].
+  - intros H; inversion H; subst q aw. intros k. rewrite (conv_nil_l O L), firstn_nil.
+    unfold PolyCoeff.coeff. destruct k; simpl; ring.
+  - set (a := a0 :: a') in *. assert (Hane : a <> []) by discriminate.
+    pose proof (degree_of_lt O L a Hane) as Hda.
+    rewrite repeat_length.
+    destruct (div_outer zero b (degree_of O b) _ eq_refl Hnz Hn Hhigh (degree_of O a - degree_of O b + 1) a []
+                (degree_of O a) ltac:(lia) ltac:(lia)) as (aw' & q' & ap' & H1 & H2 & H3 & _ & H5).
+    rewrite !app_nil_r in H1. rewrite H1. cbn [bind fst snd].
+    intros H; inversion H; subst q aw. clear H. intros k.
+    assert (Hr : coeff (firstn (degree_of O b) aw') k = if k <? degree_of O b then coeff aw' k else zero).
+    { unfold PolyCoeff.coeff. destruct (Nat.ltb_spec k (degree_of O b)).
+      - now apply nth_firstn_lt.
+      - apply nth_overflow. rewrite firstn_length. lia. }
+    rewrite Hr. destruct (Nat.lt_ge_cases k (degree_of O b + (degree_of O a - degree_of O b + 1))) as [Hk|Hk].
+    + now apply H5.
+    + rewrite (conv_high O L q' b (degree_of O b)) by (auto; lia).
+      destruct (Nat.ltb_spec k (degree_of O b)); [lia|].
+      unfold PolyCoeff.coeff. rewrite (proj1 (degree_of_spec O L a)) by lia. ring.
 Qed.
 
 (* exact Panic domain: the divisor is not the zero polynomial (incl. empty) and its degree does not exceed
@@ -372,12 +434,13 @@ Proof.
   destruct ((degree_of O b =? 0) && (match b with [] => true | b0 :: _ => feqb O b0 zero end)) eqn:E2.
   { simpl. split; [congruence|]. intros (_ & H). apply div_lead_conv in H. congruence. }
   destruct (div_lead b E2) as (Hn & Hnz).
+  assert (Hhigh : forall j, degree_of O b < j -> coeff b j = zero) by (apply (degree_of_spec O L b)).
   split; [tauto|]. intros _.
   destruct a as [|a0 a']. { simpl. discriminate. }
   set (a := a0 :: a') in *. assert (Hane : a <> []) by discriminate.
   pose proof (degree_of_lt O L a Hane) as Hda.
   rewrite repeat_length.
-  destruct (div_outer zero b (degree_of O b) _ eq_refl Hnz Hn (degree_of O a - degree_of O b + 1) a []
+  destruct (div_outer zero b (degree_of O b) _ eq_refl Hnz Hn Hhigh (degree_of O a - degree_of O b + 1) a []
               (degree_of O a) ltac:(lia) ltac:(lia)) as (aw' & q' & ap' & H1 & _).
   rewrite !app_nil_r in H1. rewrite H1. simpl. discriminate.
 Qed.
